@@ -264,8 +264,8 @@ fn cases(tier: Tier) -> Vec<Case> {
         for via in vias {
             for p in seqs(&alpha, 1) {
                 for q in seqs(&alpha, 1) {
-                    v.push(make_case(via, &[71], false, &f(&[72, 73], true), &[p.clone(), q.clone()], true, 0, Some(3)));
-                    v.push(make_case(via, &[71, 72, 73, 74], true, &[], &[p.clone(), q], true, 0, Some(3)));
+                    v.push(make_case(via, &[71], false, &f(&[72, 73], true), &[p.clone(), q.clone()], true, 0, Some(6)));
+                    v.push(make_case(via, &[71, 72, 73, 74], true, &[], &[p.clone(), q], true, 0, Some(6)));
                 }
             }
         }
